@@ -35,6 +35,9 @@ DefOf(i) == [name |-> i.name, key |-> i.key, unique |-> i.unique, partial |-> i.
 ObsColl(o) == [docs |-> o.docs, idx |-> {DefOf(o.idx[i]) : i \in 1..Len(o.idx)}]
 ObsDb(p) == [n \in DOMAIN p |-> ObsColl(p[n])]
 
+(* dumps are [state, log, tok] of one catalog *)
+SameDump(x, y) == x.tok = y.tok /\ x.log = y.log /\ ObsDb(x.state) = ObsDb(y.state)
+
 WriteOps == {"insertOne", "insertMany", "bulkWrite", "updateOne", "updateMany", "replaceOne", "deleteOne", "deleteMany"}
 FamOps == {"findOneAndUpdate", "findOneAndReplace", "findOneAndDelete"}
 
@@ -101,6 +104,8 @@ CheckCall(e, line) ==
      /\ (SameContents(Replay(Contents(pre), e.ev, 1), Contents(post)) \/ Bad(line, "replay:" \o e.op, Contents(pre), e.ev))
      /\ (DescriptionsOK(pre, e.ev) \/ Bad(line, "update-description:" \o e.op, e.ev, ""))
      /\ (TsIncreasing(e.ts) \/ Bad(line, "event-ids:" \o e.op, e.ts, ""))
+     \* C03: a call inside a session transaction is invisible outside it
+     /\ (("cpre" \in DOMAIN e) => (SameDump(e.cpre, e.cpost) \/ Bad(line, "visibility:session-call-changed-committed-state:" \o e.op, ObsDb(e.cpre.state), ObsDb(e.cpost.state))))
      /\ ((e.a # <<>> /\ "gen" \in DOMAIN e.a /\ e.a.gen # Missing) => (e.a.gen.t = "oid" \/ Bad(line, "generated-id:" \o e.op, "oid", e.a.gen)))
 
 (* one call of the real Transaction.Clean on a crafted change log *)
@@ -146,10 +151,34 @@ CheckMutate(e, line) ==
   /\ (e.pre.state = e.post.state \/ Bad(line, "alias:" \o e.what \o ":" \o e.op, e.pre.state, e.post.state))
   /\ (e.pre.log = e.post.log \/ Bad(line, "alias:" \o e.what \o ":" \o e.op, "change log unchanged", "change log changed"))
 
+(* ---- transactions (C03); dumps are [state, log, tok] of a catalog ---- *)
+CheckTxn(e, line) ==
+  CASE e.what = "start" ->
+         /\ (~e.err \/ Bad(line, "txn-result:start", "success", "error"))
+         /\ (SameDump(e.cpre, e.cpost) \/ Bad(line, "visibility:start-changed-committed-state", "", ""))
+         /\ (SameDump(e.wpost, e.cpre) \/ Bad(line, "txn-state:working-copy-differs-from-committed-at-start", "", ""))
+    [] e.what = "commit" ->
+         /\ ((e.err = e.storefail) \/ Bad(line, "txn-result:commit", e.storefail, e.err))
+         /\ IF e.err THEN SameDump(e.cpre, e.cpost) \/ Bad(line, "visibility:failed-commit-changed-committed-state", ObsDb(e.cpre.state), ObsDb(e.cpost.state))
+            ELSE SameDump(e.wpre, e.cpost) \/ Bad(line, "txn-state:commit-did-not-publish-the-working-copy", ObsDb(e.wpre.state), ObsDb(e.cpost.state))
+    [] e.what = "abort" ->
+         /\ (~e.err \/ Bad(line, "txn-result:abort", "success", "error"))
+         /\ (SameDump(e.cpre, e.cpost) \/ Bad(line, "visibility:abort-changed-committed-state", ObsDb(e.cpre.state), ObsDb(e.cpost.state)))
+    [] OTHER -> TRUE
+CheckBlocked(e, line) ==
+  /\ (SameDump(e.cpre, e.cpost) \/ Bad(line, "visibility:call-outside-the-transaction-changed-committed-state:" \o e.op, ObsDb(e.cpre.state), ObsDb(e.cpost.state)))
+  /\ (SameDump(e.wpre, e.wpost) \/ Bad(line, "txn-state:call-outside-the-transaction-changed-the-working-copy:" \o e.op, "", ""))
+  /\ ((~e.isread => e.err) \/ Bad(line, "txn-result:write-proceeded-while-a-transaction-holds-the-writer-slot:" \o e.op, "error", "success"))
+CheckSnap(e, line) ==
+  (e.pre = e.post) \/ Bad(line, "snapshot:" \o e.kind, "unchanged", "changed")
+
 Checked == l # 0 => CASE Trace[l].fn = "call" -> CheckCall(Trace[l], l)
                       [] Trace[l].fn = "clean" -> CheckClean(Trace[l], l)
                       [] Trace[l].fn = "expire" -> CheckExpire(Trace[l], l)
                       [] Trace[l].fn = "reload" -> CheckReload(Trace[l], l)
                       [] Trace[l].fn = "mutate" -> CheckMutate(Trace[l], l)
+                      [] Trace[l].fn = "txn" -> CheckTxn(Trace[l], l)
+                      [] Trace[l].fn = "blocked" -> CheckBlocked(Trace[l], l)
+                      [] Trace[l].fn = "snapcheck" -> CheckSnap(Trace[l], l)
                       [] OTHER -> TRUE
 =============================================================================
